@@ -1,5 +1,5 @@
 (* C08/Driver.v — entry point used by the correspondence check (extracted to OCaml). *)
-From RM Require Import C08.Model.
+From RM Require Import C08.Model C08.WinModel.
 Open Scope Z_scope.
 
 Definition triple_eqb (a b : Z * Z * Z) : bool :=
@@ -30,7 +30,19 @@ Definition third (t : Z * Z * Z) : Z := snd t.
    kind 2: index-valued builder over Linux maps (lo, hi) pairs
    kind 3: unloaded modules (sorted vec + filter)
    kind 4: symbol-file records (FUNC, STACK CFI INIT): value carries (addr,size,tag)
-   kind 5: line records of one FUNC: value carries (addr,size,tag), zero sizes filtered *)
+   kind 5: line records of one FUNC: value carries (addr,size,tag), zero sizes filtered
+   kind 7: STACK WIN records of one type (frame data or FPO), file order: insert_win_stack_info for each, then the
+           parser-local builder; a table entry / lookup answer is the record as stored: [tag; address; size] *)
+Definition run_win (p : profile) (ents : list (Z * Z * Z)) (qs : list Z) : c08_out :=
+  match win_table p (map (fun e => let '(b, s, v) := e in mkW b s v) ents) with
+  | Ret t => {| o_panic := false;
+                o_table := map (fun e => (fst (fst e), snd (fst e), wt (snd e))) t;
+                o_gets := map (fun x => match rm_get t x with
+                                        | Some w => [wt w; wa w; ws w]
+                                        | None => [] end) qs |}
+  | _ => {| o_panic := true; o_table := []; o_gets := [] |}
+  end.
+
 Definition run_case (kind : Z) (ents : list (Z * Z * Z)) (qs : list Z) : c08_out :=
   if kind =? 0 then
     pack (fun v => v) qs (build Z.eqb (map (fun e => let '(b, s, v) := e in (mk_range b s, v)) ents))
@@ -46,6 +58,7 @@ Definition run_case (kind : Z) (ents : list (Z * Z * Z)) (qs : list Z) : c08_out
   else if kind =? 4 then
     pack third qs (build_p triple_eqb
       (drop_none (map (fun e => let '(b, s, v) := e in (mk_range b s, e)) ents)))
+  else if kind =? 7 then run_win Debug ents qs
   else
     pack third qs (build triple_eqb
       (map (fun e => let '(b, s, v) := e in (mk_range_line b s, e))
